@@ -223,11 +223,18 @@ def run(tier, seed):
     vlib.build_harness()
     heap_part(chk, tier, seed)
     progs = corpus.ui_programs()
+    # generated programs (C02/C07 universes): objects sharing finished field thunks through
+    # inheritance, mergePatch/prune/mapWithKey results extended with +, comprehensions, closures
+    from checks import c02, c07
+    saved = dict(c02.QUICK_SAMPLE)
     try:
-        import gen_programs
-        progs = progs + gen_programs.programs_for_gc(tier, seed)
-    except ImportError:
-        pass
+        c02.QUICK_SAMPLE.update({"obj": 150, "comp": 80, "func": 60, "lazy": 40})
+        gen = c02.generate(chk, "quick" if tier == "quick" else "quick", seed, slices=["obj", "comp", "func", "lazy"], label="c03gen")
+    finally:
+        c02.QUICK_SAMPLE.clear(); c02.QUICK_SAMPLE.update(saved)
+    progs += [(f"gen:{sl}:{i}", src.encode()) for i, (sl, src, _) in enumerate(gen)]
+    inh = c07.gen(chk, "large", "identity", 0, seed) + c07.gen(chk, "small", "triples", 120 if tier == "quick" else 1500, seed)
+    progs += [(f"inh:{i}", ("local o = " + c["srcs"][-1] + "; [o, o + {}, std.objectFields(o)]").encode()) for i, c in enumerate(inh)]
     evaluator_part(chk, tier, seed, progs)
     return chk.finish()
 
